@@ -118,8 +118,9 @@ unsafe impl<A: BumpAllocatorCore> Allocator for WithoutShrink<A> {
             old_layout: Layout,
             new_layout: Layout,
         ) -> Result<NonNull<[u8]>, AllocError> {
+            debug_assert!(new_layout.size() <= old_layout.size());
             let new_ptr = this.0.allocate(new_layout)?.cast::<u8>();
-            unsafe { ptr.copy_to_nonoverlapping(new_ptr, old_layout.size()) };
+            unsafe { ptr.copy_to_nonoverlapping(new_ptr, new_layout.size()) };
             Ok(NonNull::slice_from_raw_parts(new_ptr, new_layout.size()))
         }
 
